@@ -55,6 +55,22 @@ def items(tier, seed):
             out.append({"k": "getvalues", "a": "degC", "ka": ka, "n": n, "to": "degF"})
         out.append({"k": "fromscalars", "n": n})
     for op in OPS:
+        for ka in KINDS:
+            for side in ("left", "right"):
+                for qn in ("m", "cm_depth", "m2", "degC"):
+                    out.append({"k": "op_number", "a": qn, "op": op, "ka": ka, "side": side, "n": 2})
+    db = get_db("default")
+    byname = {}
+    for qt in db.GetQuantityTypes():
+        for i in db.GetInfos(qt):
+            byname.setdefault((qt, i.name), []).append(i.unit)
+    for (qt, _nm), us in sorted(byname.items()):
+        if len(us) > 1 and qt in db.categories_to_quantity_types:
+            for u in us:
+                for v in us:
+                    if u != v:
+                        out.append({"k": "getvalues_pair", "qt": qt, "u": u, "v": v, "ka": KINDS[len(out) % 3], "n": 2})
+    for op in OPS:
         for kb in ("list", "tuple"):
             out.append({"k": "aux_int_dtype", "op": op, "kb": kb, "b": "cm"})
             out.append({"k": "aux_int_dtype", "op": op, "kb": kb, "b": "m"})
@@ -140,6 +156,22 @@ def run(cfg, V):
             v = r.GetAbstractValue()
             out.update(vals=list(v), rq=qmap(r), ctype="ndarray" if isinstance(v, numpy.ndarray) else type(v).__name__, cls=type(r).__name__)
         return out
+    if k == "op_number":
+        xa = [V["a%d" % i] for i in range(cfg["n"])]
+        kk = V["c0"]
+        A = _array(cfg["a"], cfg["ka"], xa)
+        f = (lambda o: _apply(cfg["op"], kk, o)) if cfg["side"] == "left" else (lambda o: _apply(cfg["op"], o, kk))
+        res = _attempt(lambda: f(A))
+        sres = [_attempt(lambda: f(_scalar(cfg["a"], x))) for x in xa]
+        out = {"res": res[0], "exc": res[1] if res[0] == "raised" else None, "scalar": [(s[0], (s[1].GetValue(), qmap(s[1])) if s[0] == "ok" else s[1]) for s in sres]}
+        if res[0] == "ok":
+            v = res[1].GetAbstractValue()
+            out.update(vals=list(v), rq=qmap(res[1]), cls=type(res[1]).__name__)
+        return out
+    if k == "getvalues_pair":
+        xa = [V["a%d" % i] for i in range(cfg["n"])]
+        A = Array(_container(cfg["ka"], xa), cfg["u"], cfg["qt"])
+        return {"vals": list(A.GetValues(cfg["v"])), "copy_vals": list(A.CreateCopy(unit=cfg["v"]).GetValues()), "scalar": [Scalar(x, cfg["u"], cfg["qt"]).GetValue(cfg["v"]) for x in xa]}
     if k == "aux_int_dtype":
         ia, fb = [1, 2, 3], [0.5, 1.25, 2.75]
         A = Array(numpy.array(ia), "m")
@@ -194,6 +226,18 @@ def props(cfg, T, obs):
         if cfg.get("canary"):
             P.append(("canary:a+b has the elements of a", z3.And(*[approx(r, T["a%d" % i]) for i, r in enumerate(obs["vals"])])))
         return P
+    if k == "op_number":
+        if obs["res"] == "raised":
+            return [("Array <op> number raises only where Scalar <op> number raises", not all(s[0] == "ok" for s in obs["scalar"]))]
+        if not all(s[0] == "ok" for s in obs["scalar"]):
+            return [("the Scalar operation raises only ZeroDivisionError where the Array operation returned", all(s[0] == "ok" or s[1] == "ZeroDivisionError" for s in obs["scalar"]))]
+        return [("Array <op> number: each element and the quantity equal the Scalar result", z3.And(z3.BoolVal(len(obs["vals"]) == len(obs["scalar"]) and obs["cls"] == "Array"
+                                                                                                          and all(obs["rq"] == s[1][1] for s in obs["scalar"])),
+                                                                                              *[approx(r, s[1][0]) for r, s in zip(obs["vals"], obs["scalar"])]))]
+    if k == "getvalues_pair":
+        return [("GetValues/CreateCopy between units that share a registered NAME still convert like the Scalars",
+                 z3.And(z3.BoolVal(len(obs["vals"]) == len(obs["scalar"]) == len(obs["copy_vals"])), *[approx(a, b) for a, b in zip(obs["vals"], obs["scalar"])],
+                        *[approx(a, b) for a, b in zip(obs["copy_vals"], obs["scalar"])]))]
     if k == "aux_int_dtype":
         ok = len(obs["vals"]) == 3 and all(abs(a - b) <= 1e-12 * (abs(a) + abs(b) + 1) for a, b in zip(obs["vals"], obs["want"])) and obs["unit"][0] == obs["unit"][1]
         return [("auxiliary, concrete (not solver-decided): an integer-dtype ndarray operand with a fractional list operand equals the Scalar results", ok)]
@@ -218,6 +262,8 @@ def props(cfg, T, obs):
 def finding_key(cfg, name):
     if cfg["k"] == "op" and name.startswith("operands of different lengths") and "numpy" in (cfg["ka"], cfg["kb"]) and (1 in (cfg["n"], cfg["m"])):
         return "numpy broadcasting: a length-1 operand paired with a numpy operand is broadcast instead of rejected :: " + name
+    if cfg["k"] == "op_number":
+        return "%s[%s] %s number on the %s :: %s" % (cfg["a"], cfg["ka"], cfg["op"], cfg["side"], name)
     if cfg["k"] == "op":
         return "%s[%s,%d] %s %s[%s,%d] :: %s" % (cfg["a"], cfg["ka"], cfg["n"], cfg["op"], cfg["b"], cfg["kb"], cfg["m"], name.split(" (")[0])
     return "%s %s :: %s" % (cfg["k"], {k: v for k, v in cfg.items() if k != "k"}, name)
